@@ -211,6 +211,44 @@ def oracle_file(case) -> list:
     from rnapolis.common import GlycosidicBond
 
     path = os.path.join(REPO, "tests", case["file"])
+    if case.get("variant") == "icode-runs":
+        return _with_renumbered_copy(path, case)
+    return _oracle_path(path, case)
+
+
+def _with_renumbered_copy(path, case):
+    """the PDB file with its residues renumbered onto shared numbers with insertion codes (10, 10A, 11, 11A, ... as tRNA
+    and rRNA numbering has them; coordinates untouched): every per-residue look-up then has to tell 10 from 10A"""
+    from rnaverif.runner import WORK_DIR
+
+    rank, lines = {}, []
+    with open(path) as f:
+        for line in f:
+            if line.startswith(("ATOM", "HETATM")) and len(line) >= 27:
+                key = (line[21], line[22:27])
+                per_chain = rank.setdefault(line[21], {})
+                if key not in per_chain:
+                    per_chain[key] = len(per_chain)
+                r = per_chain[key]
+                line = line[:22] + f"{10 + r // 2:>4}" + (" " if r % 2 == 0 else "A") + line[27:]
+            elif line.startswith(("TER", "ANISOU", "SIGATM", "SIGUIJ", "MODRES", "LINK", "SSBOND", "CONECT", "HET ", "SITE")):
+                continue
+            lines.append(line)
+    os.makedirs(WORK_DIR, exist_ok=True)
+    tmp = os.path.join(WORK_DIR, f"c18_{os.getpid()}_icode.pdb")
+    with open(tmp, "w") as f:
+        f.writelines(lines)
+    try:
+        return _oracle_path(tmp, case)
+    finally:
+        os.remove(tmp)
+
+
+def _oracle_path(path, case) -> list:
+    from rnapolis.parser import read_3d_structure
+    from rnapolis.parser_v2 import parse_cif_atoms, parse_pdb_atoms
+    from rnapolis.tertiary_v2 import Structure
+
     out = []
     n_chi = 0
     with open(path) as f:
@@ -354,10 +392,12 @@ def plan(tier, seed):
         specs += [{"kind": "built", "examples": 1200, "seed": seed * 1000 + k} for k in range(14)]
         specs += [{"kind": "lattice", "examples": 1500, "seed": seed * 1000 + 700}]
         specs += [{"kind": "corpus", "files": [f]} for f in QUICK_FILES]
+        specs += [{"kind": "corpus", "files": ["1ATO.pdb"], "variant": "icode-runs"}]
     else:
         specs += [{"kind": "built", "examples": 60000, "seed": seed * 1000 + k} for k in range(16)]
         specs += [{"kind": "lattice", "examples": 40000, "seed": seed * 1000 + 700 + k} for k in range(4)]
         specs += [{"kind": "corpus", "files": [f]} for f in corpus_files()]
+        specs += [{"kind": "corpus", "files": [f], "variant": "icode-runs"} for f in corpus_files() if f.endswith(".pdb")]
     return specs
 
 
@@ -412,9 +452,12 @@ def run_shard(spec) -> ShardResult:
     elif spec["kind"] == "corpus":
         for fn in spec["files"]:
             case = {"file": fn}
-            check_case(PROP_ID, oracle_file, case, res, to_json=lambda c: {"file": c["file"]})
+            if spec.get("variant"):
+                case["variant"] = spec["variant"]
+            check_case(PROP_ID, oracle_file, case, res, to_json=lambda c: {k: v for k, v in c.items() if not k.startswith("_")})
             n_chi, n_tab = case.get("_counts", (0, 0))
-            res.note_case({"file": fn, "chi_values": n_chi, "table_values": n_tab}, n_chi > 0, ["corpus-file"])
+            res.note_case({"file": fn, "variant": spec.get("variant"), "chi_values": n_chi, "table_values": n_tab}, n_chi > 0,
+                          ["corpus-file"] + (["renumbered-onto-insertion-code-runs"] if spec.get("variant") else []))
             res.extra["corpus_chi_values"] = res.extra.get("corpus_chi_values", 0) + n_chi
             res.extra["corpus_table_values"] = res.extra.get("corpus_table_values", 0) + n_tab
         res.exhaustive = False
